@@ -32,6 +32,15 @@ class Refuted(Exception):
     """A hint is provably not covered by the checks that dominate it."""
 
 
+class _NoneVal:
+    """the value None (a hint helper that reports 'no inverse' / 'not given')"""
+    def __repr__(self):
+        return "None"
+
+
+NONE = _NoneVal()
+
+
 class ListBits:
     """[bit_i(E) for i in range(N)] : little-endian bits of E, N of them."""
 
@@ -178,6 +187,15 @@ class Valuer:
         txt = norm(test)
         if txt in self.facts.truth:
             return self.facts.truth[txt]
+        if isinstance(test, ast.Compare) and len(test.ops) == 1 and isinstance(test.ops[0], (ast.Is, ast.IsNot)) \
+                and isinstance(test.comparators[0], ast.Constant) and test.comparators[0].value is None \
+                and isinstance(test.left, ast.Name) and test.left.id in self.env:
+            # a local bound on this path: None itself, or a number computed from the hints (never None)
+            a = self.env[test.left.id]
+            if a is NONE:
+                return isinstance(test.ops[0], ast.Is)
+            if isinstance(a, P) and a != P.sym(test.left.id):
+                return isinstance(test.ops[0], ast.IsNot)
         if isinstance(test, ast.Compare) and len(test.ops) == 1:
             try:
                 a, b = self.val(test.left), self.val(test.comparators[0])
@@ -216,6 +234,8 @@ class Valuer:
 
     def val(self, n):
         if isinstance(n, ast.Constant):
+            if n.value is None:
+                return NONE
             if isinstance(n.value, bool):
                 return P.const(int(n.value))
             if isinstance(n.value, int):
@@ -270,6 +290,9 @@ class Valuer:
                 return l ** int(r.const_value())
             if isinstance(n.op, ast.LShift) and r.is_const() and r.const_value().denominator == 1 and 0 <= r.const_value() < 4096:
                 return l * (2 ** int(r.const_value()))
+            if isinstance(n.op, ast.LShift):
+                # x << k is x * 2^k for every k it is defined for (a negative k raises): one symbol per exponent
+                return l * P.sym("pow2(%s)" % r)
             if isinstance(n.op, (ast.FloorDiv, ast.Div)):
                 if any(l == a and r == c for a, c in self.facts.divides):
                     return l * self.inv(r)
@@ -349,6 +372,7 @@ class Valuer:
         e = comp.elt
         if isinstance(e, ast.Call) and len(e.args) == 1 and norm(e.func).split(".")[-1] in ("PrivValBool", "PubValBool", "PrivVal"):
             e = e.args[0]
+        E = None
         if isinstance(e, ast.BinOp) and isinstance(e.op, ast.RShift) and norm(e.right) == i \
                 and isinstance(e.left, ast.BinOp) and isinstance(e.left.op, ast.BitAnd):
             a, b = e.left.left, e.left.right
@@ -357,6 +381,16 @@ class Valuer:
             elif norm(a) == "1 << %s" % i:
                 E = b
             else:
+                return None
+        elif isinstance(e, ast.BinOp) and ((isinstance(e.op, ast.BitAnd) and norm(e.right) == "1") or (
+                isinstance(e.op, ast.Mod) and norm(e.right) == "2")) and isinstance(e.left, ast.BinOp) \
+                and isinstance(e.left.op, ast.RShift) and norm(e.left.right) == i:
+            E = e.left.left          # (E >> i) & 1   |   (E >> i) % 2
+        elif isinstance(e, ast.BinOp) and isinstance(e.op, ast.BitAnd) and norm(e.left) == "1" and isinstance(e.right, ast.BinOp) \
+                and isinstance(e.right.op, ast.RShift) and norm(e.right.right) == i:
+            E = e.right.left         # 1 & (E >> i)
+        if E is not None:
+            if any(isinstance(x, ast.Name) and x.id == i for x in ast.walk(E)):
                 return None
             of = self._p(E)
             width = self._p(g.iter.args[0])
@@ -525,7 +559,14 @@ class Valuer:
                 continue
             if not isinstance(node, ast.Compare):
                 if isinstance(node, ast.BoolOp) and mentions(node):
-                    unknown = True          # an undecomposed disjunction about the subject
+                    def _settled(x):
+                        while isinstance(x, ast.UnaryOp) and isinstance(x.op, ast.Not):
+                            x = x.operand
+                        if isinstance(x, ast.BoolOp):
+                            return all(_settled(y) for y in x.values)
+                        return norm(x) in self.facts.truth
+                    if not all(_settled(y) for y in node.values):
+                        unknown = True          # an undecomposed disjunction about the subject
                 continue
             if len(node.ops) == 1:
                 op = node.ops[0]
@@ -712,6 +753,49 @@ def paths_to(fnode, target, max_paths=64):
     return out
 
 
+def _names(node):
+    return {n.id for n in ast.walk(node) if isinstance(n, ast.Name)}
+
+
+def pre_assume(v, path):
+    """Assume the path conditions that do not mention a local assigned on the path (they speak about parameters and
+    globals, and are needed to evaluate the assignments).  Conditions on locals are assumed by `replay`, once the
+    local is bound - assuming them earlier would record a truth value for an unbound name."""
+    assigned = {nm for nm, _ in path.assigns}
+    for t, pol in path.conds:
+        if not (_names(t) & assigned):
+            v.assume(t, pol)
+
+
+def replay(v, path, unknown="?%s"):
+    """Bind the path's assignments and assume its conditions on locals in execution order."""
+    assigned = {nm for nm, _ in path.assigns}
+    for st in path.steps:
+        if st[0] == "assign":
+            _, name, node = st
+            try:
+                v.env[name] = v.val(node)
+            except Undecidable:
+                v.env.pop(name, None)
+                v.env[name] = P.sym((unknown % name) + ("@%d" % getattr(node, "lineno", 0)))
+        else:
+            _, t, pol = st
+            v.assume(t, pol)
+    return v
+
+
+def must_conds(fnode, target):
+    """(test node, polarity) pairs that hold on EVERY syntactic path from the function entry to `target`."""
+    ps = paths_to(fnode, target)
+    if not ps:
+        return []
+    common = None
+    for p in ps:
+        here = {(id(t), pol) for t, pol in p.conds}
+        common = here if common is None else (common & here)
+    return [(t, pol) for t, pol in ps[0].conds if (id(t), pol) in common]
+
+
 def valuer_for_path(path, base_env, honest=True):
     """Valuer with the path's conditions assumed and its assignments bound (in order).  Raises NeedCase /
     Contradiction / Undecidable like Valuer.val."""
@@ -720,14 +804,6 @@ def valuer_for_path(path, base_env, honest=True):
     ci = 0
     # interleave: conditions are assumed first (they mention parameters), then assignments in order;
     # a condition mentioning an assigned local is re-assumed after the assignment
-    for t, pol in path.conds:
-        v.assume(t, pol)
-    for name, node in path.assigns:
-        try:
-            v.env[name] = v.val(node)
-        except Undecidable:
-            v.env.pop(name, None)
-            v.env[name] = P.sym("?%s" % name)
-    for t, pol in path.conds:
-        v.assume(t, pol)
+    pre_assume(v, path)
+    replay(v, path)
     return v
